@@ -289,10 +289,72 @@ def _sum_elements(prog, rep, fi, ol):
     return True
 
 
+def _sum_two_phase(prog, rep, fi, ol):
+    """SUM when grouping and summing are two passes: pass one files every event into exactly one member list
+    (`groups[k] = [e]` where the key is new, `groups[k].append(e)` where it is not); pass two turns every member list
+    `first, *rest` into one event that starts with first.duration and adds e.duration for every e of rest."""
+    from ..cfg import cfg_of, membership
+
+    if not isinstance(ol.target, ast.Name):
+        return False
+    ev = ol.target.id
+    news = [n for n in ast.walk(ol) if isinstance(n, ast.Assign) and len(n.targets) == 1 and isinstance(n.targets[0], ast.Subscript) and isinstance(n.targets[0].value, ast.Name) and isinstance(n.value, ast.List) and len(n.value.elts) == 1 and norm(n.value.elts[0]) == ev]
+    if len(news) != 1:
+        return False
+    groups, ck = news[0].targets[0].value.id, norm(news[0].targets[0].slice)
+    apps = [n for n in ast.walk(ol) if isinstance(n, ast.Call) and norm(n.func) == f"{groups}[{ck}].append" and len(n.args) == 1 and norm(n.args[0]) == ev]
+    if len(apps) != 1:
+        return False
+    g = cfg_of(fi)
+    head = g.node_of(ol)
+    body_entry = [v for v, lab in g.succ[head] if lab and lab[0] == "for" and lab[2] is True]
+    sites = {g.node_of(news[0]), g.node_of(apps[0])}
+    miss = any(head in g.reach_avoiding([b], avoid=frozenset(sites), include_start=True) for b in body_entry if b not in sites)
+    rep.check(not miss, "SUM", fi.short, "every event is filed into a group", "each iteration passes through `groups[k] = [e]` or `groups[k].append(e)`", "an iteration of the grouping loop can complete without filing the event: its duration is lost", fi.loc(ol))
+    both = g.node_of(apps[0]) in g.reach_avoiding([g.node_of(news[0])], avoid=frozenset({head})) or g.node_of(news[0]) in g.reach_avoiding([g.node_of(apps[0])], avoid=frozenset({head}))
+    rep.check(not both, "SUM", fi.short, "no event is filed twice", "at most one filing site per iteration", "one iteration can both open a group with the event and append it: it is counted twice", fi.loc(ol))
+    r_new = set()
+    r_app = set()
+    for b in body_entry:
+        r_new |= g.reach_filtered(b, lambda u, v, lab: membership(lab, ck, groups) is not False) | {b}
+        r_app |= g.reach_filtered(b, lambda u, v, lab: membership(lab, ck, groups) is not True) | {b}
+    rep.check(g.node_of(news[0]) not in r_new, "SUM", fi.short, "a member list is opened only for a new key", "behind `key not in groups`", "a new member list can replace an existing one: the events filed so far are dropped", fi.loc(news[0]))
+    rep.check(g.node_of(apps[0]) not in r_app, "SUM", fi.short, "appending only to an existing member list", "behind `key in groups`", "", fi.loc(apps[0]))
+    rep.check(not [n for n in ast.walk(ol) if isinstance(n, (ast.Continue, ast.Break, ast.Return))], "SUM", fi.short, "every event is grouped", "no continue/break in the event loop", "some events are skipped by the grouping loop", fi.loc(ol))
+    # pass two
+    idx = fi.node.body.index(ol)
+    post = fi.node.body[idx + 1 :]
+    loops = [n for n in post if isinstance(n, ast.For) and norm(n.iter) in (f"{groups}.values()",)]
+    if len(loops) != 1:
+        return False
+    l2 = loops[0]
+    t = l2.target
+    if not (isinstance(t, ast.Tuple) and len(t.elts) == 2 and isinstance(t.elts[0], ast.Name) and isinstance(t.elts[1], ast.Starred) and isinstance(t.elts[1].value, ast.Name)):
+        return False
+    first, rest = t.elts[0].id, t.elts[1].value.id
+    creates = [n for n in l2.body if isinstance(n, ast.Assign) and isinstance(n.value, ast.Call) and norm(n.value.func) == "Event" and any(k.arg == "duration" and norm(k.value) == f"{first}.duration" for k in n.value.keywords)]
+    okc = len(creates) == 1 and isinstance(creates[0].targets[0], ast.Name)
+    rep.check(okc, "SUM", fi.short, "group creation", f"Event(duration={first}.duration)", "a group's event does not start with its first member's duration", fi.loc(l2))
+    if not okc:
+        return True
+    mv = creates[0].targets[0].id
+    adds = [n for n in l2.body if isinstance(n, ast.For) and norm(n.iter) == rest and isinstance(n.target, ast.Name)]
+    oka = len(adds) == 1 and [norm(b) for b in adds[0].body] == [f"{mv}.duration += {adds[0].target.id}.duration"]
+    rep.check(oka, "SUM", fi.short, "group accumulation", f"for e in {rest}: {mv}.duration += e.duration", "the remaining members' durations are not each added exactly once", fi.loc(l2))
+    others = [n for n in ast.walk(l2) if isinstance(n, (ast.Assign, ast.AugAssign)) and any(isinstance(x, ast.Attribute) and x.attr == "duration" and norm(x.value) == mv for x in (n.targets if isinstance(n, ast.Assign) else [n.target])) and not (adds and any(n is b for b in adds[0].body))]
+    rep.check(not others, "SUM", fi.short, "nothing else writes a group's duration", "", f"`{norm(others[0])[:60] if others else ''}` also writes the group's duration", fi.loc(l2))
+    rets = [n for n in post if isinstance(n, ast.Return)]
+    outs = [b for b in l2.body if isinstance(b, ast.Expr) and isinstance(b.value, ast.Call) and rets and norm(b.value.func) == f"{norm(rets[0].value)}.append"]
+    rep.check(len(outs) == 1 and not any(isinstance(x, (ast.If, ast.Continue, ast.Break)) for b in l2.body if not isinstance(b, ast.For) for x in ast.walk(b)), "SUM", fi.short, "outputs", "one output event per group", "the result is not one event per group", fi.loc(l2))
+    return True
+
+
 def duration_conservation(prog, rep, ol):
     rep.rule("SUM", "merge_events_by_keys: every event reaches exactly one of: group creation with duration=event.duration, or group.duration += event.duration; one output event per group; chunk_events_by_key: every key-bearing event either extends the last chunk (subevents.append(event) AND duration += event.duration) or opens a chunk with subevents=[event] and duration=event.duration that is appended")
     fi = prog.func("merge_events_by_keys")
     ev = norm(ol.target)
+    if _sum_two_phase(prog, rep, fi, ol):
+        return
     ifs = [n for n in ol.body if isinstance(n, ast.If) and isinstance(n.test, ast.Compare) and isinstance(n.test.ops[0], (ast.NotIn, ast.In))]
     if len(ifs) != 1:
         if not _sum_general(prog, rep, fi, ol) and not _sum_elements(prog, rep, fi, ol):
